@@ -37,6 +37,65 @@ const (
 var stakePool = []uint64{0, 1, 399, 400, 401, 799, 800, 1200, 1999, 2000, 2001, 4000, 5000,
 	1<<53 - 1, 1 << 53, 1<<53 + 1, 1<<53 + 3, 1 << 63, 1<<64 - 1}
 
+// lattice64: the 64-bit boundary lattice for a uint64 quantity on the path, relative to a current stake:
+// small values, stake±1, the 2^31 / 2^32 / 2^53 / 2^63 (sign) / 2^64 (wrap) boundaries and their stake-shifted neighbours.
+func lattice64(stake uint64) []uint64 {
+	vs := []uint64{0, 1, stake - 1, stake, stake + 1, 1<<31 - 1, 1 << 31, 1<<31 + 1, 1<<32 - 1, 1 << 32, 1<<32 + 1,
+		1<<53 - 1, 1 << 53, 1<<53 + 1, 1<<63 - 1, 1 << 63, 1<<63 + 1, 1<<63 + stake - 1, 1<<63 + stake, 1<<63 + stake + 1,
+		1<<63 + 10000, 0 - stake - 1, 0 - stake, 0 - stake + 1, 1<<64 - 2, 1<<64 - 1}
+	seen := map[uint64]bool{}
+	out := []uint64{}
+	for _, v := range vs {
+		if !seen[v] {
+			seen[v] = true
+			out = append(out, v)
+		}
+	}
+	return out
+}
+
+// latticeFamily: deterministic scenarios that run before anything random — a miner of each type with a small and a
+// larger stake, then ONE operation with a lattice amount: refund (transaction), add-stake, UNSTAKE opcode.
+// `rich` gives the payer 2^120 wei so that huge add-stake amounts are payable (correspondence only).
+func latticeFamily(run func(string) string, rich bool) {
+	a1, a2 := strings.Repeat("a1", 20), strings.Repeat("a2", 20)
+	balance := "100000" + e18
+	if rich {
+		balance = "1329227995784915872903807060280344576"
+	}
+	for _, typ := range []int{0, 1} {
+		for _, stake := range []uint64{uint64(400 + 1600*typ), 6000} {
+			for _, kind := range []string{"refund", "add", "vmunstake"} {
+				for _, v := range lattice64(stake) {
+					run("config dev")
+					run("reset 100")
+					run("uni 11 " + a1 + "," + a2 + " " + a1 + "," + a2)
+					run("bal " + a1 + " " + balance)
+					run("bal " + a2 + " " + balance)
+					acct := a1
+					if kind == "vmunstake" {
+						acct = a2 // the contract that executes the opcode is the miner's account
+					}
+					run(fmt.Sprintf("apply %s 11 %d %d %s 01 01", a1, typ, stake, acct))
+					run("endblock 101")
+					run("dump")
+					switch kind {
+					case "refund":
+						run(fmt.Sprintf("refund %s 11 %d", a1, v))
+					case "add":
+						run(fmt.Sprintf("add %s 11 %d", a1, v))
+					case "vmunstake":
+						run(fmt.Sprintf("vmunstake %s %s %d%s", a1, a2, v, e18))
+					}
+					run("dump")
+					run("endblock 102")
+					run("dump")
+				}
+			}
+		}
+	}
+}
+
 func pickStake(r *hx.Rng, typ int) uint64 {
 	switch r.Intn(10) {
 	case 0, 1, 2:
@@ -274,6 +333,11 @@ func genEpisode(r *hx.Rng, ip *interp, run func(string) string, n int, st *genSt
 			if r.Chance(1, 10) {
 				d = stakePool[r.Intn(len(stakePool))]
 			}
+			if r.Chance(1, 8) {
+				l := lattice64(400 + uint64(r.Intn(3))*1600)
+				d = l[r.Intn(len(l))]
+				st.inc("add-lattice64")
+			}
 			if m := service.MinerManagerImpl.GetMiner(id, e.ip.w.adb); m != nil && r.Chance(1, 2) {
 				// boundary of re-activation: land exactly on / just above / just below the minimum
 				min := uint64(400)
@@ -328,6 +392,11 @@ func genEpisode(r *hx.Rng, ip *interp, run func(string) string, n int, st *genSt
 				}
 			default:
 				am = strconv.FormatUint(uint64(r.Intn(int(stake%100000)+2)), 10)
+			}
+			if r.Chance(1, 6) {
+				l := lattice64(stake)
+				am = strconv.FormatUint(l[r.Intn(len(l))], 10)
+				st.inc("refund-lattice64")
 			}
 			if r.Chance(1, 12) {
 				am = "000" + am // ParseUint accepts leading zeros
@@ -411,6 +480,10 @@ func genEpisode(r *hx.Rng, ip *interp, run func(string) string, n int, st *genSt
 				}
 			case 7:
 				amt = "18446744073709551616" + e18 // whole tokens overflow uint64
+				if r.Bool() {
+					l := lattice64(stake)
+					amt = strconv.FormatUint(l[r.Intn(len(l))], 10) + e18
+				}
 			default:
 				amt = strconv.Itoa(r.Intn(5000)) + "5" + e18[1:]
 			}
